@@ -132,6 +132,79 @@ CHECKS = {
         mandatory=dict(quick=['turns', 'extension', 'extension_x3', 'action_time_0', 'multi_round_turns']),
         assumptions=ASSUME_COMMON,
     ),
+    "C16": dict(
+        crash_is_violation=True,
+        parts=[
+            dict(pkg="seat", run="^TestC16SeatManager$",
+                 quick=dict(shards=2, checks=400, timeout=240),
+                 thorough=dict(shards=8, checks=12000, timeout=1800)),
+            dict(pkg="seat", run="^TestC16SeatManager$",
+                 quick=dict(shards=1, checks=300, timeout=240, gomaxprocs=2),
+                 thorough=dict(shards=4, checks=6000, timeout=1800, gomaxprocs=2)),
+            dict(pkg="table", run="^TestC16Membership$",
+                 quick=dict(shards=2, checks=250, timeout=240),
+                 thorough=dict(shards=8, checks=6000, timeout=1800)),
+            dict(pkg="table", run="^TestC16Membership$",
+                 quick=dict(shards=1, checks=200, timeout=240, gomaxprocs=4),
+                 thorough=dict(shards=4, checks=4000, timeout=1800, gomaxprocs=4)),
+            dict(pkg="table", run="^TestC16Actions$",
+                 quick=dict(shards=3, checks=120, timeout=300),
+                 thorough=dict(shards=12, checks=2500, timeout=1800)),
+            dict(pkg="table", run="^TestC16Actions$",
+                 quick=dict(shards=1, checks=100, timeout=300, gomaxprocs=2),
+                 thorough=dict(shards=4, checks=1500, timeout=1800, gomaxprocs=2)),
+        ],
+        rule="generated concurrent workloads released by a barrier, N goroutines 2..16 (quick) / 2..48 (thorough), at several GOMAXPROCS values: (a) seat-manager AssignSeats/RandomAssignSeats/RemoveSeats/JoinPlayers/UpdatePlayerHasChips bursts with colliding seats; (b) table PlayerReserve (fixed colliding seats, random seats up to and beyond capacity, re-buys) / PlayersLeave / UpdateTablePlayers bursts on a table before its first hand; (c) at a drawn turn of a real hand every player at the table and strangers submit an action at once; oracle: (a)(b) the history is linearizable with respect to the sequential seat model (porcupine, nondeterministic for random seats) and the C03 consistency predicate holds afterwards; (c) accepted submissions = announced actions, every successful backend call was made for the entry whose turn it then was, the hand settles with chips conserved; a fatal runtime error of the process is a violation; non-trivial = a burst with conflicting operations (same seat / capacity edge / same turn); distinct = distinct workloads",
+        mandatory=dict(quick=["conflict_same_seat", "capacity_edge", "overlapping", "burst", "accepted_per_burst_1", "GOMAXPROCS2", "GOMAXPROCS16"]),
+        assumptions=ASSUME_COMMON + ["schedules are sampled (Go runtime scheduler), not enumerated", "UpdateTablePlayers batches mixing leaves and joins are left out of the concurrent workload (recorded C03 finding: not atomic even sequentially)", "PlayerJoin / PlayerRedeemChips / PlayerSettlementFinish take no lock and are outside the statement's list"],
+    ),
+    "C17": dict(
+        parts=[
+            dict(pkg="table", run="^TestC17$",
+                 quick=dict(shards=2, checks=700, timeout=240),
+                 thorough=dict(shards=8, checks=20000, timeout=1800)),
+            dict(pkg="table", run="^TestC17Facade$",
+                 quick=dict(shards=4, checks=100, timeout=300),
+                 thorough=dict(shards=16, checks=2000, timeout=1800)),
+        ],
+        rule="(1) facade: the whole table-history driver (create, start, set-up, settlement-finish, reserve/join/re-buy/add-on/leave, blind update, deadline extension, all nine game actions incl. intruder attempts) is routed through Manager.X(tableID, ...) and the oracles of C01, C10, C12 and C15 apply unchanged; (2) twin managers with 1..6 tables and identical settings: a drawn sequence over all 25 manager methods is applied through the manager on one and through the engine obtained with GetTableEngine on the other; results (errors by text, values) and normalised table state must agree after every step; (3) every other table's state is byte-identical before and after each operation; (4) never-created / closed / released ids yield ErrManagerTableNotFound (-1 for the deadline); non-trivial = a sequence touching >=2 tables with at least one method of each group; distinct = distinct method sequences",
+        mandatory=dict(quick=["m:PauseTable", "m:CloseTable", "m:ReleaseTable", "m:StartTableGame", "m:UpdateBlind", "m:SetUpTableGame", "m:UpdateTablePlayers", "m:PlayerReserve", "m:PlayerJoin", "m:PlayerSettlementFinish", "m:PlayerRedeemChips", "m:PlayersLeave", "m:PlayerExtendActionDeadline", "m:PlayerReady", "m:PlayerPay", "m:PlayerBet", "m:PlayerRaise", "m:PlayerCall", "m:PlayerAllin", "m:PlayerCheck", "m:PlayerFold", "m:PlayerPass", "m:GetTableEngine", "m:CreateTable", "unknown_id", "closed_id", "released_id", "tables_6"]),
+        assumptions=ASSUME_COMMON + ["hands are not twinned (the manager builds its own backend); hand-level effects of the player-game methods are covered by the facade part"],
+    ),
+    "C18": dict(
+        parts=[
+            dict(pkg="actor", run="^TestC18$",
+                 quick=dict(shards=4, checks=60, timeout=300),
+                 thorough=dict(shards=16, checks=1500, timeout=1800)),
+            dict(pkg="actor", run="^TestC18Tables$",
+                 quick=dict(shards=1, checks=1, timeout=300),
+                 thorough=dict(shards=4, checks=1, timeout=1800)),
+        ],
+        rule="(1) real snapshots published at the decision points of generated hands (stacks from one chip, blinds above stacks, antes, facing all-ins, every request kind) are presented K=6 (quick) / 20 (thorough) times to fresh bots for every player at the table and a stranger through a recording Adapter; oracle: silent when not asked or stale, otherwise exactly one call for itself that the real hand engine accepts for the real state, allowed kind, legal amount; (2) tables played entirely by bots through the real adapter: no move rejected, hands settle (progress-based); non-trivial = a state where the asked stack is <= the minimum bet, faces an all-in or has only allin/fold, or a table hand with an all-in; distinct = distinct generated histories",
+        mandatory=dict(quick=["stack_le_minbet", "facing_allin", "chose_bet", "chose_raise", "chose_call", "chose_check", "chose_fold", "chose_allin", "chose_pass", "chose_pay", "stale_view", "not_asked", "bot_table"]),
+        assumptions=["the bot's random source cannot be seeded: each state is sampled K times", "humanized mode (real thinking delays) is not exercised"],
+    ),
+    "C19": dict(
+        parts=[
+            dict(pkg="actor", run="^TestC19$",
+                 quick=dict(shards=4, checks=60, timeout=300),
+                 thorough=dict(shards=16, checks=1500, timeout=1800)),
+            dict(pkg="actor", run="^TestC19Timed$",
+                 quick=dict(shards=1, checks=1, timeout=300),
+                 thorough=dict(shards=4, checks=1, timeout=1800)),
+        ],
+        rule="real decision-point snapshots presented to fresh player runners for every player and a stranger in status running / idle / suspended with action time 0, plus a timed batch (1-2 s thinking time, armed together, judged after one wait); oracle: never call/bet/raise/allin, pass immediately when it is the only option, otherwise the conservative choice (ready > check > fold > mandatory payment of exactly the posted size) immediately when suspended or action time 0, else not before the thinking time and the conservative choice afterwards, at most one call, nothing when not asked; non-trivial = conservative choice differs from the first allowed action, a mandatory payment, or a timed case; distinct = distinct generated histories / presentations",
+        mandatory=dict(quick=["choice_pass", "choice_ready", "choice_check", "choice_fold", "choice_pay_ante", "choice_pay_sb", "choice_pay_bb", "suspended", "idle", "timed_1s", "timed_2s"]),
+        assumptions=["the upper side (acts once the time is up) relies on a 1.5 s margin"],
+    ),
+    "C20": dict(
+        parts=[dict(pkg="actor", run="^TestC20$",
+                    quick=dict(shards=4, checks=100, timeout=300),
+                    thorough=dict(shards=16, checks=2500, timeout=1800))],
+        rule="every table-state notification of generated hands (all statuses and hand phases, showdown and fold-out endings, and hands that keep running after an external PauseTable / CloseTable) is handed - inside the engine's callback, as the engine's live table - to 1..5 actors attached in a drawn order (non-system observer, system observer, a scribbling system observer, a player runner) through the real TableEngineAdapter; oracle: the non-system observer is never shown deck, burned cards, hole cards or hand strength while the hand is in play, nor those of folded players after it closed; the engine's table is unchanged by the fan-out; no actor shares structure with the engine or another actor; what one actor changes is invisible to the others; the system observer gets the unmasked copy; non-trivial = a snapshot with dealt hole cards or a closed hand with folded and shown players; distinct = distinct generated histories",
+        mandatory=dict(quick=["playing_with_cards", "closed_showdown_with_fold", "closed_foldout", "paused_during_hand", "actors_1", "actors_5"]),
+        assumptions=["only snapshots the engine emits are presented"],
+    ),
     "C04": dict(
         parts=[
             dict(pkg="seat", run="^TestC04Rapid$",
@@ -187,5 +260,11 @@ LEVELS["C05"] = _lv("Generated arrival/bust/re-buy histories against a three-val
 LEVELS["C06"] = _lv("Validity predicates over every opened and settled snapshot of generated default-rule histories; the standard order table is written independently of position.go.", "DESIGN.md section 3 C06", "stateful property-based testing (rapid) with validity predicates", "Histories that reach button seats of a recorded C04 finding are excluded (counted).")
 LEVELS["C07"] = _lv("Life-cycle automaton and numbering/reset/no-open obligations over generated histories with control operations at deterministic moments.", "DESIGN.md section 3 C07", "stateful property-based testing (rapid) with a life-cycle automaton oracle", "Timing of the asynchronous trigger is sampled at deterministic moments plus scheduler noise; unset-blind levels (30 s retry loop) are not generated in the quick tier.")
 LEVELS["C08"] = _lv("Bounded-progress oracle on generated continuations: the harness issues only the drawn signals and requires pause-iff and the next hand to open and be played out.", "DESIGN.md section 3 C08", "stateful property-based testing (rapid) with pause-iff and bounded-progress oracles", "Liveness is bounded progress on generated histories (3 s beyond the longest armed timer); a refused rotation from the recorded C04 finding is reported as its own known finding.")
+
+LEVELS["C16"] = _lv("Generated concurrent bursts (barrier-released goroutines, several GOMAXPROCS values) with a porcupine linearizability oracle against the sequential seat model for membership, and a backend-call-log oracle for simultaneous game actions.", "DESIGN.md section 3 C16", "randomized concurrent workload generation (rapid) with a linearizability oracle (porcupine) and history oracles", "Schedules are sampled, not enumerated: a violation that needs one particular preemption may never be drawn. The Go race detector is not used as an oracle.")
+LEVELS["C17"] = _lv("All 25 manager methods exercised in generated multi-table interleavings: differential (manager vs. engine twin), bystander-identity and not-found oracles, plus the history driver routed through the manager under the other properties' oracles.", "DESIGN.md section 3 C17", "property-based differential testing (rapid): twin execution manager vs. engine, metamorphic bystander identity", "Manager.Reset is only checked for 'all ids become not-found'.")
+LEVELS["C18"] = _lv("Real engine snapshots at generated decision points, each sampled K times against fresh bots; the real hand engine is the acceptance oracle; plus whole bot tables through the real adapter.", "DESIGN.md section 3 C18", "property-based testing (rapid) over real reachable hand states with the hand engine as acceptance oracle; repeated sampling of the bot's own randomness", "The bot's randomness cannot be pinned: a rare illegal amount has probability, not certainty, of being drawn.")
+LEVELS["C19"] = _lv("Real engine snapshots presented to player runners in every status; conservative-choice rule as the oracle; real thinking times paid once per batch.", "DESIGN.md section 3 C19", "property-based testing (rapid) over real reachable hand states with a decision-table oracle; batched real-time sampling", "Lower time bound only (monotonic clock); the upper side uses a margin.")
+LEVELS["C20"] = _lv("Every notification of generated hands fanned out inside the engine callback to drawn actor sets through the real adapter; hidden-fields predicate and structural/mutation isolation oracles.", "DESIGN.md section 3 C20", "property-based testing (rapid) with validity predicates and pointer/mutation isolation oracles", "Only shapes the engine emits are presented.")
 
 NOT_APPLICABLE = []
